@@ -1486,6 +1486,27 @@ def rt_c11(tier="quick", first_only=False, count=None):
             t = eqx.tree_at(lambda d: d.base_dist.df.arr, t, jnp.full(2, r, dt))
             if not np.all(np.asarray(t.df, float) > 0):
                 add(f"StudentT df for raw={r} is not positive", raw=r)
+    # default transformer of coupling / masked autoregressive flows: every TRAINABLE leaf (not under NonTrainable) moved
+    import itertools
+    import flowjax.flows as Fl
+    from flowjax.wrappers import NonTrainable
+    mk_default = getattr(Fl, "_affine_with_min_scale", None)
+    if mk_default is not None:
+        for ms in (1e-2, 0.3):
+            tr0 = mk_default(ms)
+            prm, static = eqx.partition(tr0, eqx.is_inexact_array, is_leaf=lambda l: isinstance(l, NonTrainable))
+            leaves, tdef = jax.tree_util.tree_flatten(prm)
+            for vals in itertools.product(raws, repeat=len(leaves)):
+                n += 1
+                moved = jax.tree_util.tree_unflatten(tdef, [jnp.full(jnp.shape(l), v, jnp.result_type(l)) for l, v in zip(leaves, vals)])
+                sc = np.asarray(unwrap(eqx.combine(moved, static)).scale, float)
+                if not np.all(sc > 0):
+                    add(f"default flow transformer (_affine_with_min_scale({ms})) with its {len(leaves)} trainable leaves set to {list(vals)} has scale {sc.tolist()} (must stay strictly positive)", what="min_scale", raw=list(vals))
+                    break
+            n += 1
+            s0 = np.asarray(unwrap(tr0).scale, float)
+            if not np.allclose(s0, 1.0, rtol=1e-6):
+                add(f"default flow transformer (_affine_with_min_scale({ms})) starts with scale {s0.tolist()}, not the 1 given to its reparameterisation", what="min_scale")
     for seed in range(6 if tier == "quick" else 30):
         n += 1
         scale = [1.0, 10.0, 50.0][seed % 3]
